@@ -238,28 +238,29 @@ class Component( ComponentLevel7 ):
     # WE NEED TO ADD CONNECTIONS AT PARENT INSTEAD OF TOP
     parent.add_connections( *connection_pairs )
 
-    # Now we put back the provided upblk metadata to parent and top
-    for blk, obj_name in provided_upblk_reads:
-      parent._dsl.upblk_reads[blk].add( eval(obj_name) )
+    # Now we put back the provided upblk metadata to the component that hosts
+    # the block/function (the parent or a component above it) and top
+    for host, blk, obj_name in provided_upblk_reads:
+      host._dsl.upblk_reads[blk].add( eval(obj_name) )
 
-    for blk, obj_name in provided_upblk_writes:
+    for host, blk, obj_name in provided_upblk_writes:
       written = eval(obj_name)
-      parent._dsl.upblk_writes[blk].add( written )
-      # A signal written by an update_ff block of the parent is a register
-      if blk in parent._dsl.update_ff:
+      host._dsl.upblk_writes[blk].add( written )
+      # A signal written by an update_ff block is a register
+      if blk in host._dsl.update_ff:
         written._dsl.needs_double_buffer = True
 
-    for blk, obj_name in provided_upblk_calls:
-      parent._dsl.upblk_calls[blk].add( eval(obj_name) )
+    for host, blk, obj_name in provided_upblk_calls:
+      host._dsl.upblk_calls[blk].add( eval(obj_name) )
 
-    for func, obj_name in provided_func_reads:
-      parent._dsl.func_reads[func].add( eval(obj_name) )
+    for host, func, obj_name in provided_func_reads:
+      host._dsl.func_reads[func].add( eval(obj_name) )
 
-    for func, obj_name in provided_func_writes:
-      parent._dsl.func_writes[func].add( eval(obj_name) )
+    for host, func, obj_name in provided_func_writes:
+      host._dsl.func_writes[func].add( eval(obj_name) )
 
-    for func, obj_name in provided_func_calls:
-      parent._dsl.func_calls[func].add( eval(obj_name) )
+    for host, func, obj_name in provided_func_calls:
+      host._dsl.func_calls[func].add( eval(obj_name) )
 
     # Evaluating the saved names may spawn slices/fields of the new
     # component's signals (e.g. parent connects obj.out[0:4]). They also
@@ -347,58 +348,66 @@ class Component( ComponentLevel7 ):
       # must save the information (upA reads B) to avoid bugs or
       # explicitly re-elaborating the parent.
 
-      for blk, reads in parent._dsl.upblk_reads.items():
+      # The blocks/functions of every component above the deleted one can do
+      # that, not only those of the parent: a read of a port or a method
+      # call may go through several levels of the hierarchy (s.a.b.out).
+
+      hosts = [ parent ]
+      while hosts[-1] is not top:
+        hosts.append( hosts[-1].get_parent_object() )
+
+      for host, blk, reads in [ (h, k, v) for h in hosts for k, v in h._dsl.upblk_reads.items() ]:
         assert blk in top._dsl.all_upblk_reads
         to_save = set()
         for x in reads:
           if x in removed_connectables:
             to_save.add( x )
-            saved_upblk_reads.append( (blk, repr(x)) )
-        parent._dsl.upblk_reads[blk] -= to_save
+            saved_upblk_reads.append( (host, blk, repr(x)) )
+        host._dsl.upblk_reads[blk] -= to_save
 
-      for blk, writes in parent._dsl.upblk_writes.items():
+      for host, blk, writes in [ (h, k, v) for h in hosts for k, v in h._dsl.upblk_writes.items() ]:
         assert blk in top._dsl.all_upblk_writes
         to_save = set()
         for x in writes:
           if x in removed_connectables:
             to_save.add( x )
-            saved_upblk_writes.append( (blk, repr(x)) )
-        parent._dsl.upblk_writes[blk] -= to_save
+            saved_upblk_writes.append( (host, blk, repr(x)) )
+        host._dsl.upblk_writes[blk] -= to_save
 
-      for blk, calls in parent._dsl.upblk_calls.items():
+      for host, blk, calls in [ (h, k, v) for h in hosts for k, v in h._dsl.upblk_calls.items() ]:
         assert blk in top._dsl.all_upblk_calls
         to_save = set()
         for x in calls:
           # an update block can also call an interface (e.g. s.child.ifc())
           if x in removed_connectables or x in removed_interfaces:
             to_save.add( x )
-            saved_upblk_calls.append( (blk, repr(x)) )
-        parent._dsl.upblk_calls[blk] -= to_save
+            saved_upblk_calls.append( (host, blk, repr(x)) )
+        host._dsl.upblk_calls[blk] -= to_save
 
       # We need to save the information for funcs too
-      for func, reads in parent._dsl.func_reads.items():
+      for host, func, reads in [ (h, k, v) for h in hosts for k, v in h._dsl.func_reads.items() ]:
         to_save = set()
         for x in reads:
           if x in removed_connectables:
             to_save.add( x )
-            saved_func_reads.append( (func, repr(x)) )
-        parent._dsl.func_reads[func] -= to_save
+            saved_func_reads.append( (host, func, repr(x)) )
+        host._dsl.func_reads[func] -= to_save
 
-      for func, writes in parent._dsl.func_writes.items():
+      for host, func, writes in [ (h, k, v) for h in hosts for k, v in h._dsl.func_writes.items() ]:
         to_save = set()
         for x in writes:
           if x in removed_connectables:
             to_save.add( x )
-            saved_func_writes.append( (func, repr(x)) )
-        parent._dsl.func_writes[func] -= to_save
+            saved_func_writes.append( (host, func, repr(x)) )
+        host._dsl.func_writes[func] -= to_save
 
-      for func, calls in parent._dsl.func_calls.items():
+      for host, func, calls in [ (h, k, v) for h in hosts for k, v in h._dsl.func_calls.items() ]:
         to_save = set()
         for x in calls:
           if x in removed_connectables or x in removed_interfaces:
             to_save.add( x )
-            saved_func_calls.append( (func, repr(x)) )
-        parent._dsl.func_calls[func] -= to_save
+            saved_func_calls.append( (host, func, repr(x)) )
+        host._dsl.func_calls[func] -= to_save
 
       saved_connections = []
 
